@@ -101,6 +101,16 @@ def store_cases(tier):
                             continue
                         yield dict(op="store", source=source, shape=[n], src_chunks=[sc], lazy=lazy, api="store", call="same-source-twice",
                                    pairs=[dict(target="array", tshape=[n], tchunks=[sc], region=None), dict(target="array", tshape=[n], tchunks=[tc], region=None)])
+                    # a later pair that cannot be written safely: the whole call must be refused before ANY target is touched
+                    for bad, kind in (([[1, n + 1]], "misaligned"), ([[0, max(1, n - 1)]], "wrong-extent")):
+                        if sc == 1 and kind == "misaligned":
+                            continue  # every offset is aligned with chunks of one element
+                        yield dict(op="store", source=source, shape=[n], src_chunks=[sc], lazy=lazy, api="store", call="two-sources",
+                                   pairs=[dict(target="array", tshape=[n], tchunks=[sc], region=None),
+                                          dict(target="array", tshape=[n + 4], tchunks=[max(sc, 2)], region=bad, region_kind=kind)])
+                        yield dict(op="store", source=source, shape=[n], src_chunks=[sc], lazy=lazy, api="store", call="three",
+                                   pairs=[dict(target="new", region=None), dict(target="array", tshape=[n], tchunks=[sc], region=None),
+                                          dict(target="array", tshape=[n + 4], tchunks=[max(sc, 2)], region=bad, region_kind=kind)])
                     # three pairs
                     yield dict(op="store", source=source, shape=[n], src_chunks=[sc], lazy=lazy, api="store", call="three",
                                pairs=[dict(target="new", region=None), dict(target="array", tshape=[n], tchunks=[sc], region=None), dict(target="new", region=None)])
